@@ -35,6 +35,38 @@ func NewWorld(salt uint64) *World {
 	return &World{Net: n, Genesis: g, uid: salt<<20 | 1}
 }
 
+// NewWorldV1 is NewWorld on the network whose v2 hardfork starts late (allow
+// height 200, require height 250): blocks below are synced through AddBlocks.
+func NewWorldV1(salt uint64) *World {
+	n, g := testutil.Network()
+	g.Timestamp = g.Timestamp.Add(time.Duration(1800+salt%100000) * time.Second)
+	return &World{Net: n, Genesis: g, uid: salt<<20 | 1}
+}
+
+// CopyChain replays the best chain of src into dst.
+func CopyChain(dst, src *chain.Manager) error {
+	tip := src.Tip().Height
+	var batch []types.Block
+	for h := dst.Tip().Height + 1; h <= tip; h++ {
+		idx, ok := src.BestIndex(h)
+		if !ok {
+			return fmt.Errorf("no best index at height %d", h)
+		}
+		b, ok := src.Block(idx.ID)
+		if !ok {
+			return fmt.Errorf("missing block at height %d", h)
+		}
+		batch = append(batch, b)
+		if len(batch) == 50 || h == tip {
+			if err := dst.AddBlocks(batch); err != nil {
+				return err
+			}
+			batch = nil
+		}
+	}
+	return nil
+}
+
 // UniqueID returns a fresh gateway id (deterministic, never repeated).
 func (w *World) UniqueID() (id gateway.UniqueID) {
 	w.mu.Lock()
@@ -93,6 +125,7 @@ type NodeConfig struct {
 	Linger    func() time.Duration
 	LingerRun func() time.Duration // delay of the listener Close issued by Run
 	DialWait  func() time.Duration
+	CopyFrom  *chain.Manager // replay this chain before mining Blocks
 	Opts      []syncer.Option
 }
 
@@ -101,6 +134,11 @@ func (w *World) NewNode(c NodeConfig) (*Node, error) {
 	cm, err := w.NewManager()
 	if err != nil {
 		return nil, err
+	}
+	if c.CopyFrom != nil {
+		if err := CopyChain(cm, c.CopyFrom); err != nil {
+			return nil, err
+		}
 	}
 	if c.Blocks > 0 {
 		if err := Mine(cm, c.Blocks); err != nil {
